@@ -371,6 +371,7 @@ def faultItems (kind : String) (k : Nat) : List Acc.Item × Bool :=   -- (what t
   | "half_hello" => ([], false)
   | "malformed" => ([.req (900000 + k), .bad], true)
   | "deepnest" => ([.bad], true)
+  | "unknown_avp" => ([.req (940000 + k), .bad], true)
   | "oversized" => ([.bad], true)
   | "short" => ([.bad], true)
   | "stall_midframe" => ([], true)
